@@ -40,7 +40,7 @@ def parity_of(value, leaf, conds):
     return par, zero, n
 
 
-def run(ctx, chk):
+def run_rules(ctx, chk):
     fb = ctx.facts()
     chk.explanation = ('N-clauses: writer = odd store -> release fence -> record copy -> release store of an even non-zero '
                        'value on every path (S1); reader = acquire load -> record copy -> acquire fence -> re-load, accepted only '
@@ -159,7 +159,7 @@ def run(ctx, chk):
         # iteration is even (otherwise a copy taken while an update is in flight can be accepted)
         from . import C03
         sub = type(chk)('C02', LEVEL, chk.tier)
-        C03.run(ctx, sub)
+        C03.run_rules(ctx, sub)
         for o in sub.obs:
             if o['rule'] == 'C03.G4':
                 chk.ob('C02.S2', 'snapshot:loop-carried-reference-generation-even', o['ok'], o['where'], o['detail'])
@@ -287,3 +287,15 @@ def witnesses(chk):
     chk.floor('C02.S5', 'witness doc-tests', len(res), 4)
     if r.returncode != 0 and not res:
         chk.ob('C02.S5', 'witness:run', False, 'witness/', out[-600:])
+
+
+CONTROLS = [('C02.S1', 'write:release-fence-before-copy'), ('C02.S1', 'write:release-store-of-even-after-copy'), ('C02.S2', 'snapshot:acquire-fence-after-copy'), ('C02.S2', 'snapshot:loop-carried-reference-generation-even')]
+
+
+def run(ctx, chk):
+    """the rules on /repo, then the positive controls: the same rules must fire on fixtures/shm_broken"""
+    import sys
+    from .. import core
+    run_rules(ctx, chk)
+    if not getattr(chk, '_is_control', False) and not isinstance(ctx, core.FixtureCtx) and not chk.suffix:
+        core.run_controls(chk, sys.modules[__name__], 'shm_broken', CONTROLS)
